@@ -132,17 +132,27 @@ impl Decoder for ClientAEADCodec {
     }
 }
 
+/// The VMess securities this client speaks; any other configured cipher is an error, not a silent aes-128-gcm.
+fn security_of(kind: octo_squirrel::codec::aead::CipherKind) -> Result<octo_squirrel::protocol::vmess::header::SecurityType> {
+    use octo_squirrel::codec::aead::CipherKind;
+    use octo_squirrel::protocol::vmess::header::SecurityType;
+    match kind {
+        CipherKind::Aes128Gcm => Ok(SecurityType::Aes128Gcm),
+        CipherKind::ChaCha20Poly1305 => Ok(SecurityType::Chacha20Poly1305),
+        other => bail!("cipher {} is not supported for vmess", other),
+    }
+}
+
 pub(super) mod tcp {
     use octo_squirrel::codec::aead::CipherKind;
     use octo_squirrel::protocol::address::Address;
     use octo_squirrel::protocol::vmess::header::RequestCommand;
     use octo_squirrel::protocol::vmess::header::RequestHeader;
-    use octo_squirrel::protocol::vmess::header::SecurityType;
 
     use super::ClientAEADCodec;
 
     pub fn new_codec(addr: &Address, (kind, password): (CipherKind, String)) -> anyhow::Result<ClientAEADCodec> {
-        let security = if kind == CipherKind::ChaCha20Poly1305 { SecurityType::Chacha20Poly1305 } else { SecurityType::Aes128Gcm };
+        let security = super::security_of(kind)?;
         let header = RequestHeader::default(RequestCommand::TCP, security, addr.clone(), &password)?;
         Ok(ClientAEADCodec::new(header))
     }
@@ -156,12 +166,10 @@ pub(super) mod udp {
     use octo_squirrel::codec::DatagramPacket;
     use octo_squirrel::codec::QuicStream;
     use octo_squirrel::codec::WebSocketFramed;
-    use octo_squirrel::codec::aead::CipherKind;
     use octo_squirrel::config::ServerConfig;
     use octo_squirrel::protocol::address::Address;
     use octo_squirrel::protocol::vmess::header::RequestCommand;
     use octo_squirrel::protocol::vmess::header::RequestHeader;
-    use octo_squirrel::protocol::vmess::header::SecurityType;
     use tokio::net::TcpStream;
     use tokio_rustls::client::TlsStream;
     use tokio_util::bytes::BytesMut;
@@ -176,7 +184,7 @@ pub(super) mod udp {
     }
 
     pub fn new_codec(addr: &Address, config: &ServerConfig<SslConfig>) -> Result<ClientAEADCodec> {
-        let security = if config.cipher == CipherKind::ChaCha20Poly1305 { SecurityType::Chacha20Poly1305 } else { SecurityType::Aes128Gcm };
+        let security = super::security_of(config.cipher)?;
         let header = RequestHeader::default(RequestCommand::UDP, security, addr.clone(), &config.password)?;
         Ok(ClientAEADCodec::new(header))
     }
